@@ -44,7 +44,9 @@ Drift(ev) == "ref" \in DOMAIN ev /\ Ops(ev.calls) # Ops(ev.ref)
 Judge(i) ==
   LET ev == Rec[i]
       d == EvDiff(ev)
-      own == Diff(ev.plain, ev.bytes)                 \* the slice decode itself, judged for its own properties
+      \* the slice decode and the reader decode themselves, judged for their own properties (a wrong checksum on the
+      \* reader path is C03's whether or not the slice path agrees)
+      own == Diff(ev.plain, ev.bytes) \cup (IF "ok" \in DOMAIN ev.out /\ ev.out.ok \in {0, 1} THEN Diff(ev.out, ev.bytes) ELSE {})
   IN /\ (IF d = {} THEN TRUE ELSE PrintT(<<"VERDICT", i, "reader|" \o ev.tag \o "|" \o Class(ev.bytes), {<<"C19", f>> : f \in d}>>))
      /\ (IF own = {} THEN TRUE ELSE PrintT(<<"VERDICT", i, Class(ev.bytes), {<<Owner(f), f>> : f \in own}>>))
      /\ (IF Drift(ev) THEN PrintT(<<"INFO", "MODEL-DRIFT", i, ev.tag>>) ELSE TRUE)
